@@ -18,7 +18,7 @@ import numpy as np
 
 from .. import par
 from .. import spectral as S
-from ..qlib import lib, q_from_float, q_to_float, omul, oherm, oeye, ofro, units, EPS
+from ..qlib import lib, q_from_float, q_to_float, omul, oherm, oeye, ofro, units, EPS, f_layout
 
 MCFG = """CONSTANTS MaxK = %d
  MaxRhs = %d
@@ -128,7 +128,7 @@ def hess_check(rec, cls, detail, Hf):
     t = rec.new("Hess_QR_ggivens", cls, detail)
     Hess = np.vstack([Hf[..., c] for c in range(4)]).copy()
     with contextlib.redirect_stdout(io.StringIO()):
-        W, R = u.Hess_QR_ggivens(Hess)
+        W, R = u.Hess_QR_ggivens(f_layout(Hess, byteorder_only=True))
     Wf, Rf = from_a2(np.asarray(W)), from_a2(np.asarray(R))
     rec.eqint(t, "HessQRShapes", [list(Wf.shape[:2]), list(Rf.shape[:2])], [[k1, k1], [k1, k]])
     if [list(Wf.shape[:2]), list(Rf.shape[:2])] != [[k1, k1], [k1, k]]:
